@@ -54,6 +54,20 @@ const FAILING: &[&str] = &[
     "emit(typing.Nope)",
 ];
 
+/// Statement groups that make the linter and the static type checker produce SEVERAL diagnostics at once (their
+/// relative order and wording is part of the observable output).
+const DIAGNOSTIC_RICH: &[&str] = &[
+    "def _lint1(a, b, c):\n    unused1 = 1\n    unused2 = 2\n    unused3 = [a]\n    return b\n    unreachable = 3\n",
+    "_dup = {\"k\": 1, \"k\": 2, \"j\": 3, \"j\": 4, 5: 6, 5: 7}\n",
+    "def _lint2(x):\n    if x:\n        return 1\n    else:\n        pass\n\ndef _lint2(x):\n    return x\n",
+    "def _ty1(x: int) -> str:\n    y = x + \"a\"\n    z = x.nope\n    w = [1, 2].appendd(3)\n    return x\n",
+    "def _ty2(a: list[int], b: dict[str, int]):\n    a.append(\"s\")\n    b[1] = 2\n    return a.upper() + b.lower()\n",
+    "def _ty3():\n    _ty3(1)\n    len()\n    len(1, 2)\n    \"a\".startswith(1)\n    return DRec(b = 1, c = 2)\n",
+    "def _lint3(zeta, alpha, mid, _private, *args, **kwargs):\n    for zeta in [1]:\n        pass\n    for alpha in [2]:\n        pass\n    [mid for mid in [3]]\n",
+    "load(\"nonexistent.star\", \"u1\", \"u2\", u3 = \"u4\")\n",
+    "def _lint4():\n    a, b, c = 1, 2, 3\n    d = e = 4\n    return None\n    return 5\n",
+];
+
 const PRELUDE: &str = "DRec = record(a = int)\nDEn = enum(\"x\", \"y\", \"z\")\ndef dfunc(p, q = 1, *args, **kw):\n    return p\n";
 
 fn gen_program(ch: &mut Choices) -> String {
@@ -68,6 +82,19 @@ fn gen_program(ch: &mut Choices) -> String {
     for _ in 0..n {
         s.push_str(*ch.pick(PROBES));
         s.push('\n');
+    }
+    if ch.chance(1, 2) {
+        let k = 1 + ch.idx(3);
+        let start = ch.idx(DIAGNOSTIC_RICH.len());
+        for i in 0..k {
+            let g = DIAGNOSTIC_RICH[(start + i * 4) % DIAGNOSTIC_RICH.len()];
+            if g.starts_with("load(") {
+                // a load statement must come first
+                s = format!("{g}{s}");
+            } else {
+                s.push_str(g);
+            }
+        }
     }
     if ch.chance(2, 3) {
         s.push_str(*ch.pick(FAILING));
